@@ -78,6 +78,23 @@ def run_scenario(case, layer):
     dt_ivs = case.get('dt_intervals') or [rng.choice([None, None, None, None, 0.001, 0.005, 0.02]) for _ in range(n)]
     eps = []
     senders = []
+    triggers = collections.defaultdict(list)      # listener key -> chained submissions waiting for a delivery at that listener
+    submit_ref = []
+
+    def mk_listener(key):
+        lst = W.deliv[key]
+
+        def cb(priority, pgn, sa, timestamp, data):
+            try:
+                b = bytes(data)
+            except Exception:
+                b = repr(data).encode()
+            lst.append((sim.now, priority, pgn, sa, b))
+            for ch in list(triggers.get(key, ())):
+                if ch['match'](pgn, sa, b):
+                    triggers[key].remove(ch)
+                    submit_ref[0](ch['msg'])          # the application submits its next message from inside the callback
+        return cb
     for i in range(n):
         kw = dict(max_cmdt_packets=windows[i])
         if bam_iv is not None:
@@ -92,12 +109,12 @@ def run_scenario(case, layer):
             a = addrs[len(eps)]
             e = len(eps)
             if layouts[i] == 'int':
-                W.listen_ecu(node, ('int', e), a)
+                node.ecu.subscribe(mk_listener(('int', e)), a)
                 senders.append(lambda dp, pf, ps, prio, data, _n=node, _a=a: _n.ecu.send_pgn(dp, pf, ps, prio, _a, data))
                 eps.append(dict(stack=i, addr=a, kind='int'))
             else:
                 ca = W.ca(node, a, identity_number=10 * i + k + 1)
-                W.listen_ca(ca, ('ca', e))
+                ca.subscribe(mk_listener(('ca', e)))
                 senders.append(ca.send_pgn)
                 eps.append(dict(stack=i, addr=a, kind='ca'))
     W.run(0.01)
@@ -144,6 +161,40 @@ def run_scenario(case, layer):
                 m['t'] = 0.5
                 extra.append(m)
             msgs.extend(extra)
+    # chained submissions: the application sends its next message from inside a delivery callback -- at the originator when the end-of-message
+    # acknowledgement of a transfer is reported, or at a receiver as the reply to a message it has just been given
+    chained = []
+    if not case.get('sequential') and rng.random() < 0.35:
+        parents = [m for m in msgs if len(m['data']) > (60 if fd else 8)]
+        rng.shuffle(parents)
+        for par in parents[:rng.randint(1, 3)]:
+            k = len(msgs) + len(chained)
+            if par['mode'] == 'p2p' and rng.random() < 0.5:
+                # at the originator, on the end-of-message notification: next message to the same peer (or a broadcast)
+                ch = gen_message(rng, fd, eps, k, case.get('lengths'), ['p2p', 'p2p', 'bam2'], src=par['src'])
+                if ch['mode'] == 'p2p':
+                    ch['dst'] = par['dst']
+                    ch['ps'] = eps[par['dst']]['addr']
+                key = (eps[par['src']]['kind'], par['src'])
+                want_sa, want_pgn = eps[par['dst']]['addr'], M.norm_pgn((par['dp'] << 16) | (par['pf'] << 8))
+                payload = bytes(par['data'])
+                triggers[key].append(dict(msg=ch, match=lambda pgn, sa, b, _s=want_sa, _p=want_pgn, _pl=payload: sa == _s and M.norm_pgn(pgn) == _p and b != _pl))
+                ch['chain'] = 'on_eom'
+            else:
+                # at a receiver, on delivery of the parent: a reply to the parent's sender
+                rcv = par['dst'] if par['dst'] is not None else rng.choice([j for j in range(len(eps)) if eps[j]['stack'] != eps[par['src']]['stack']])
+                ch = gen_message(rng, fd, eps, k, case.get('lengths'), ['p2p', 'p2p', 'bam1'], src=rcv)
+                if ch['mode'] == 'p2p':
+                    ch['dst'] = par['src']
+                    ch['ps'] = eps[par['src']]['addr']
+                key = (eps[rcv]['kind'], rcv)
+                payload = bytes(par['data'])
+                triggers[key].append(dict(msg=ch, match=lambda pgn, sa, b, _pl=payload: b == _pl))
+                ch['chain'] = 'on_rx'
+            if len(ch['data']) >= 3:
+                ch['data'][2] = ch['src']
+            ch['t'] = None
+            chained.append(ch)
     msgs.sort(key=lambda m: (m['t'], m['m']))
 
     inflight_frames = []
@@ -155,19 +206,22 @@ def run_scenario(case, layer):
         m['exc'] = rec['exc']
         m['t_sub'] = rec['t0']
         m['frames_during_call'] = (n0, len(W.bus.frames))
+    submit_ref.append(submit)
     for m in msgs:
         sim.at(m['t'], submit, m)
     last_t = max(m['t'] for m in msgs)
+    msgs = msgs + chained
     unit = 60 if fd else 7
     iv = bam_iv if bam_iv is not None else (0.010 if fd else 0.050)
     longest = max([0.0] + [((len(m['data']) + unit - 1) // unit + 3) * (iv + 0.001) for m in msgs if m['mode'] != 'p2p'])
     longest = max(longest, max([0.0] + [((len(m['data']) + unit - 1) // unit) * (0.012 + (dt_ivs[eps[m['src']]['stack']] or 0)) for m in msgs if m['mode'] == 'p2p']))
-    W.run(last_t + longest + 5.0)
+    W.run(last_t + longest * (2 if chained else 1) + 5.0)
 
     # ---- oracle: M-DELIV -------------------------------------------------------------------
     expected = collections.defaultdict(list)
     eom_allow = []
     n_acc = n_ref = 0
+    msgs = [m for m in msgs if 't_sub' in m]          # chained messages whose trigger never came were never submitted
     for m in msgs:
         if m['exc']:
             viol.add('send_raised', 'send_pgn raised %s for %s' % (m['exc'], brief(m)), layer=layer)
@@ -270,10 +324,10 @@ def run_scenario(case, layer):
     multi = sum(1 for m in msgs if m['acc'] is True and len(m['data']) > (60 if fd else 8))
     obs = dict(messages_accepted=n_acc, messages_refused=n_ref, multipacket_accepted=multi, deliveries_compared=compared,
                frames=len(W.bus.frames), eom_notifications=eom_seen[0], tables_observed=tables, sessions_reassembled=sn_ok,
-               zero_latency_cases=1 if zero else 0, jobthread_max_timecalls=max([s.job_state.max_time_calls for s in W.stacks] + [0]))
+               zero_latency_cases=1 if zero else 0, chained_submissions=sum(1 for m in msgs if m.get('chain')), jobthread_max_timecalls=max([s.job_state.max_time_calls for s in W.stacks] + [0]))
     sample = dict(case=dict(seed=case['seed'], stacks=n, layouts=layouts, endpoints=[(e['stack'], e['kind'], e['addr']) for e in eps], windows=windows,
                             dt_intervals=dt_ivs, zero=zero, lat=list(lat)),
-                  messages=[(m['mode'], len(m['data']), 'ep%d' % m['src'], m['dst'], round(m['t'], 4), m['acc']) for m in msgs[:14]],
+                  messages=[(m['mode'], len(m['data']), 'ep%d' % m['src'], m['dst'], round(m['t'], 4) if m['t'] is not None else m.get('chain'), m['acc']) for m in msgs[:14]],
                   frames=len(W.bus.frames), deliveries=compared, violations=len(viol))
     res = dict(violations=list(viol), inconclusive=None, sig=repr(sig), nontrivial=multi > 0 and compared > 0, obs=obs, sample=sample)
     res['fingerprint'] = order_fingerprint(W.bus.frames)
